@@ -153,6 +153,8 @@ func c05Graphs(r *mc.Report, n int, orderDev int, shard, nshards int, lite ...bo
 
 type c05ContCase struct {
 	Dup    bool     `json:"dup,omitempty"` // every dependency declared twice
+	Opt    bool     `json:"opt,omitempty"` // every (non-group) dependency declared as an optional In field
+	Rev    bool     `json:"rev,omitempty"` // registrations made in descending id order (consumers of higher ids first)
 	N      int      `json:"n"`
 	Mask   uint32   `json:"mask"`
 	Target []string `json:"target_forms"` // per node: plain | keyed | group
@@ -182,13 +184,21 @@ func (c c05ContCase) spec() kit.Spec {
 				d.Group = "g"
 				allPlain = false
 			}
+			if c.Opt && d.Group == "" {
+				d.Opt = true
+			}
 			r.Deps = append(r.Deps, d)
 			if c.Dup {
 				r.Deps = append(r.Deps, d)
 			}
 		}
-		r.In = c.Shape == "in" || !allPlain
+		r.In = c.Shape == "in" || !allPlain || c.Opt
 		spec.Regs = append(spec.Regs, r)
+	}
+	if c.Rev {
+		for i, j := 0, len(spec.Regs)-1; i < j; i, j = i+1, j-1 {
+			spec.Regs[i], spec.Regs[j] = spec.Regs[j], spec.Regs[i]
+		}
 	}
 	return spec
 }
@@ -356,7 +366,7 @@ func c05Containers(r *mc.Report, n int, uniform bool, lifes []string, shard, nsh
 		r.Transitions += int64(len(e.Results) + 1)
 		fs = append(fs, genericFindings(nil, s)...)
 		for _, f := range fs {
-			r.Violate(f.F, f.Detail+fmt.Sprintf("\n  services=%d edges=%v target-forms=%v shape=%s lifetime=%s", c.N, adjOf(c.N, c.Mask, false), c.Target, c.Shape, c.Life), c)
+			r.Violate(f.F, f.Detail+fmt.Sprintf("\n  services=%d edges=%v target-forms=%v shape=%s lifetime=%s optional=%v reversed-registration=%v", c.N, adjOf(c.N, c.Mask, false), c.Target, c.Shape, c.Life, c.Opt, c.Rev), c)
 		}
 		v := "ok"
 		if e.BuildErr != nil {
@@ -405,6 +415,12 @@ func c05Containers(r *mc.Report, n int, uniform bool, lifes []string, shard, nsh
 		for _, t := range targets {
 			for _, life := range lifes {
 				run(c05ContCase{N: n, Mask: mask, Target: t, Shape: "in", Life: life})
+				if mask != 0 && (n <= 3 || life == "scoped") {
+					// registration order and optional parameter-object fields must not matter for the verdict
+					run(c05ContCase{N: n, Mask: mask, Target: t, Shape: "in", Life: life, Rev: true})
+					run(c05ContCase{N: n, Mask: mask, Target: t, Shape: "in", Life: life, Opt: true})
+					run(c05ContCase{N: n, Mask: mask, Target: t, Shape: "in", Life: life, Opt: true, Rev: true})
+				}
 				allPlain := true
 				for _, f := range t {
 					if f != "plain" {
@@ -427,7 +443,7 @@ var _ = graph.NewDependencyGraph
 func init() {
 	mc.Register(&mc.Check{
 		Prop:        "C05",
-		Rule:        "graph component: ALL 2^16 digraphs on 4 labelled nodes (self-loops included; all 2^9 on 3 nodes too) x {AddProviderDeferred all + DetectCycles (asked twice), AddProvider one by one} x dependency-list order {ascending, descending} x canonical / reversed base map order, plus every single non-identity permutation of one map range (order deviation 1) for all 3-node graphs (quick) / additionally all 4-node graphs with deferred adds and ascending lists (thorough); verdicts compared with a colour-DFS on the plain digraph, reported paths checked edge by edge. Container: all digraphs on <=3 services x every per-target dependency form (plain / keyed / group; In-struct and positional consumers) x 3 uniform lifetimes, and all digraphs on 4 services x uniform forms; Build verdict, error class through BuildError, reported path, and termination of resolving every identity. distinct = distinct (size, forms, verdict) classes.",
+		Rule:        "graph component: ALL 2^16 digraphs on 4 labelled nodes (self-loops included; all 2^9 on 3 nodes too) x {AddProviderDeferred all + DetectCycles (asked twice), AddProvider one by one} x dependency-list order {ascending, descending} x canonical / reversed base map order, plus every single non-identity permutation of one map range (order deviation 1) for all 3-node graphs (quick) / additionally all 4-node graphs with deferred adds and ascending lists (thorough); verdicts compared with a colour-DFS on the plain digraph, reported paths checked edge by edge. Container: all digraphs on <=3 services x every per-target dependency form (plain / keyed / group; In-struct and positional consumers; In-struct also with every non-group edge declared optional, and with the registrations made in ascending and descending order, so that consumers are registered before and after what they consume) x 3 uniform lifetimes, and all digraphs on 4 services x uniform forms; Build verdict, error class through BuildError, reported path, and termination of resolving every identity. distinct = distinct (size, forms, verdict) classes.",
 		Assume:      []string{"the property's 'randomly beyond 4 nodes' part is not covered: the claim is all graphs with <= 4 nodes"},
 		MinOutcomes: 4,
 		Jobs: func(tier string) []mc.Job {
